@@ -1182,15 +1182,40 @@ class MonC13(object):
         kind = "drag" if dragged else "own"
         nested = bool(obj.parent_component_list or obj.child_component_list)
         if nested and not dragged:
-            for x in ancestors(obj) + descendants(obj):
+            # (a) the component places itself away from an ancestor that lies somewhere else: the assembly is split
+            for x in ancestors(obj):
                 lx = x.placed_workplace
                 if lx is not None and lx is not new:
                     self._mark_split(obj)
                     break
+            # (b) the component is placed while a descendant lies at another workplace and is ACTIVE there (one of its
+            # tasks READY or WORKING), or lies deeper than a direct child (the library takes only direct children off
+            # their workplace's list, __allocate 3-1-1-1): parent and descendant active at the same time - the known
+            # area. A direct child whose tasks are all FINISHED and that waits for its parent is the normal
+            # sequential regime: the library handles it correctly, an anomaly there is a new defect.
+            direct = set(map(id, obj.child_component_list))
+            for x in descendants(obj):
+                # (where the descendant lay before this move began: the library resets the whole assembly to "no place"
+                # first, so the live attribute is None already)
+                lx = self.loc.get(x)
+                if lx is None or lx is new:
+                    continue
+                active = any(t.state in (TS.READY, TS.WORKING) for t in x.targeted_task_list)
+                if active or id(x) not in direct:
+                    self._mark_split(x)
         if nested and dragged:
-            # dragged from a place other than where the dragging ancestor came from
+            # dragged from a place other than where the dragging ancestor came from - the assembly was split already.
+            # (An ancestor that comes from NOWHERE and collects its finished parts is the normal sequential regime.)
             for a in ancestors(obj):
-                if self.prev_loc.get(a, None) is not src and src is not None:
+                a_from = self.prev_loc.get(a, None)
+                if a_from is not None and src is not None and a_from is not src:
+                    self._mark_split(obj)
+                    break
+            # ... or dragged to a place where ANOTHER of its ancestors does not lie (a component with two parents that
+            # are placed at different workplaces)
+            for a in ancestors(obj):
+                a_loc = self.loc.get(a)
+                if a_loc is not None and a_loc is not new:
                     self._mark_split(obj)
                     break
         self.prev_loc[obj] = src
